@@ -6,6 +6,7 @@
 From Coq Require Import NArith List Bool Lia.
 From GJ Require Import Base.Bytes Model.KeyBitmap Proofs.KeyBitmapP.
 Import ListNotations.
+From GJ Require Import Gen.FieldShape Model.FieldRes Proofs.FieldResP.
 Open Scope N_scope.
 
 (* for every set of at most `width` names and EVERY key: *)
@@ -43,3 +44,30 @@ Proof.
     try (destruct i; discriminate); try (destruct j; discriminate);
     inversion Ha; inversion Hb; subst; reflexivity.
 Qed.
+
+(* ---- which field a name selects when structs are embedded in structs (Model/FieldRes.v) ---- *)
+(* compile.go (decoder) and compiler.go (encoder), as the translator read them: every level of embedding hands all
+   its candidates up, the outermost struct decides per name *)
+Theorem C15_field_resolution_source :
+  decoder_flattens_all_candidates = true /\ decoder_rule_as_modelled = true /\
+  encoder_flattens_all_candidates = true /\ encoder_rule_as_modelled = true.
+Proof. repeat split; reflexivity. Qed.
+
+(* For every struct shape (any depth of embedding, by value or by pointer, tagged and untagged fields, ignored
+   fields) and every name: the model selects a field exactly when Go's rule does -- the candidate that is alone at
+   the smallest depth, or alone among the tagged candidates at that depth; otherwise nothing, also nothing deeper. *)
+Theorem C15_field_resolution_is_gos_rule : forall fs n c,
+  resolve (cands fs) n = Some c <-> Selected (cands fs) n c.
+Proof. exact select_iff. Qed.
+Print Assumptions C15_field_resolution_is_gos_rule.
+
+Theorem C15_shallowest_field_wins : forall fs n c, resolve (cands fs) n = Some c ->
+  forall c', In c' (cands fs) -> c_name c' = n -> (c_depth c <= c_depth c')%nat.
+Proof. intros fs n c. apply resolve_shallowest. Qed.
+
+(* the two repaired defects: settling the names level by level lets a deeper field through where the name is
+   ambiguous (struct{struct{struct{X};struct{X}};struct{struct{X}}}), and a tag counts at every depth *)
+Theorem C15_level_by_level_refuted : select w_amb [88] = None /\ hier_select w_amb [88] = Some [1; 0; 0]%nat.
+Proof. exact hier_refuted. Qed.
+Example C15_tag_two_levels_down : select w_tag [88] = Some [0; 0; 0]%nat.
+Proof. exact tag_at_depth. Qed.
